@@ -229,6 +229,102 @@ def coq_value(text):
     return ast.literal_eval(s)
 
 
+
+# ------------------------------------------------------------------ directed search (on-break protocol)
+def enc_pol(p):
+    x = p[0]
+    if x in (0, 1): return [x]
+    if 2 <= x <= 8: return [x, p[1]]
+    if x == 9:
+        out = [9, p[1], len(p[2])]
+        for s in p[2]: out += enc_pol(s)
+        return out
+    out = [x, len(p[1])]
+    for s in p[1]: out += enc_pol(s)
+    return out
+
+
+def variants(p, concrete):
+    """policies near p: one leaf replaced, one threshold changed, p wrapped"""
+    repl = [(0,), (1,), (2, 0), (2, 1), (4, 5), (4, 4194309), (3, 100), (3, 500000001)]
+    out = []
+
+    def rec(q, rebuild):
+        x = q[0]
+        if x == 9:
+            k, subs = q[1], q[2]
+            for k2 in (k - 1, k + 1):
+                if 1 <= k2 <= len(subs):
+                    out.append(rebuild((9, k2, subs)))
+            if concrete:
+                out.append(rebuild((10, subs)))
+                out.append(rebuild((11, subs)))
+            for i, s in enumerate(subs):
+                rec(s, lambda n, i=i: rebuild((9, k, subs[:i] + [n] + subs[i + 1:])))
+        elif x in (10, 11):
+            subs = q[1]
+            out.append(rebuild((21 - x, subs)))
+            out.append(rebuild((9, len(subs), subs)))
+            for i, s in enumerate(subs):
+                rec(s, lambda n, i=i: rebuild((x, subs[:i] + [n] + subs[i + 1:])))
+        else:
+            for r in repl:
+                if r != q:
+                    out.append(rebuild(r))
+    rec(p, lambda n: n)
+    for extra in repl:
+        out.append((9, 1, [p, extra]))
+        out.append((9, 2, [p, extra]))
+        out.append((9, 2, [extra, p, (2, 2)]))
+        if concrete:
+            out.append((10, [p, extra]))
+            out.append((10, [extra, p, (2, 2)]))
+    return out[:400]
+
+
+def neighbours(toks):
+    kind = toks[0]
+    res = []
+    if kind == 1:
+        p, i = dec_pol(toks, 1)
+        tail = [6, 0, 0, 0, 4, 0, 5, 0, 10, 1, 5, 1, 10, 6, 0, 0, 0, 99, 0, 100, 0, 200, 1, 500000000, 1, 500000100]
+        for v in variants(p, False):
+            res.append([1] + enc_pol(v) + tail)
+    elif kind == 2:
+        p, i = dec_pol(toks, 1)
+        q, i = dec_pol(toks, i)
+        vs = variants(p, False)[:120]
+        for v in vs:
+            res.append([2] + enc_pol(v) + enc_pol(q))
+            res.append([2] + enc_pol(q) + enc_pol(v))
+        for v in variants(q, False)[:120]:
+            res.append([2] + enc_pol(p) + enc_pol(v))
+    else:
+        c, i = dec_pol(toks, 1)
+        for v in variants(c, True):
+            res.append([3] + enc_pol(v))
+    return res
+
+
+def directed_search(hbin, tier, tdir, seeds):
+    """run the implementation on inputs near the mismatching ones and let the oracle judge them"""
+    inputs = []
+    for t in seeds[:6]:
+        inputs += neighbours(t)
+    if not inputs:
+        return [], []
+    inp = os.path.join(vlib.WORK, "c18-directed-input.txt")
+    with open(inp, "w") as f:
+        for t in inputs:
+            f.write(" ".join(map(str, t)) + "\n")
+    lines = run_engine(hbin, ["eval", inp], tier)
+    write_gen(lines, os.path.join(tdir, "PolicyCasesGen.v"))
+    if vlib.coqc("Tables/PolicyCasesGen.v").returncode != 0:
+        return [], lines
+    c3 = vlib.coqc("Tables/PolicyCasesDiag.v")
+    v = coq_value(c3.stdout) if c3.returncode == 0 else None
+    return (v or []), lines
+
 # ------------------------------------------------------------------ evidence helpers
 def histogram(lines):
     h = collections.OrderedDict()
@@ -351,9 +447,34 @@ def run(rep, tier, seed, replay):
     # model mismatches: a property failure on the same case was reported above with the input;
     # a mismatch alone is a broken correspondence
     spec_failed_cases = {e[0] for e in verdicts if any(20 <= c < 30 for c in e[1])}
+    searched = 0
+    if mismatches and not spec_failed_cases and not replay:
+        # correspondence broken but every observed output still meets the specification:
+        # look for a property failure on inputs near the mismatching ones
+        seeds_in = []
+        for idx, code, robj in mismatches:
+            if robj["input_tokens"] not in seeds_in:
+                seeds_in.append(robj["input_tokens"])
+        dv, dlines = directed_search(hbin, tier, tdir, seeds_in)
+        searched = len(dlines)
+        for entry in dv:
+            idx, codes, cex = entry[0], entry[1], (entry[2] if len(entry) > 2 else None)
+            for code in codes:
+                if 20 <= code < 30:
+                    d2, _ = describe(dlines[idx])
+                    robj = dict(d2)
+                    robj.update({"property": PID, "input_tokens": input_tokens(dlines[idx]), "code": code,
+                                 "function": FUNCS.get(code % 10), "seed": seed, "tier": tier,
+                                 "found_by": "directed search around a case on which the implementation differs from the model",
+                                 "judgement": "the implementation's output violates the truth-table specification"})
+                    if cex is not None:
+                        robj["counter_assignment_true_leaves"] = [show(dec_pol(c, 0)[0]) for c in cex]
+                    rep.violation("spec:%s" % FUNCS[code % 10], what_failed(code, d2), robj, True)
+                    spec_failed_cases.add(-1)
     for idx, code, robj in mismatches:
         if idx in spec_failed_cases:
             continue
+        robj["directed_search_inputs_tried"] = searched
         robj["broken_tie"] = "model/code correspondence (Tables/PolicyCasesCheck.v: cases_ok), function %s" % robj["function"]
         robj["judgement"] = "implementation differs from the model; its output still satisfies the specification on this case"
         rep.violation("tie:%s" % robj["function"], "implementation differs from the model on " + what_failed(code, robj),
@@ -385,7 +506,8 @@ def run(rep, tier, seed, replay):
         "cases": n_cases, "cases_with_failed_check": len(verdicts),
         "known_class_hits": {KNOWN_KEYS[k]: v for k, v in sorted(n_known.items())},
         "rule": "exhaustive: every semantic policy <= %d nodes over {UNSAT,TRIVIAL,pk(A),pk(B),older(5),after(100)}, every "
-                "semantic policy of 6..%d nodes over {UNSAT,TRIVIAL,pk(A)}, entails on all ordered pairs of policies <= 3 x <= %d nodes, "
+                "semantic policy of 6..%d nodes over {UNSAT,TRIVIAL,pk(A)} (arity <= 3), entails on all ordered pairs of policies <= 3 x <= %d nodes "
+                "over 5 leaves and on policies with 8..25 terminals over 2..5 atoms, "
                 "every concrete policy <= 4 nodes (and/or/thresh arity <= 3) over 7 leaves; + seeded random semantic / entailment / "
                 "concrete cases up to 30 nodes and 8 distinct atoms; every output compared with the model and judged by the "
                 "truth table over all assignments" % ((6, 7, 4) if tier == "thorough" else (5, 6, 3)),
